@@ -16,7 +16,7 @@ def main():
     c = vf.Check("C18")
     (asan,) = c.build("h_value.asan")
     p = os.path.join(c.out, "group.ndjson")
-    rc, out, err = c.run([asan, "group", str(c.seed), "200000" if c.thorough else "1500", p], timeout=1500)
+    rc, out, err = c.run([asan, "group", str(c.seed), "100000" if c.thorough else "1500", p], timeout=1500)
     if c.harness_ok("group", rc, out, err):
         def sig(e):
             import json
